@@ -140,6 +140,7 @@ def run(ctx):
     n_cases = 1200 if ctx.thorough else 220
     exprs, meta, found = [], [], []
     concat_cases = []
+    unfuse_cases = []          # (unfusegen) the fused arrays and fused axes that are unfused below
     stats = {'single_axis_group': 0, 'first_axis_dual_mixed': 0, 'missing_subblock': 0, 'nested': 0, 'position_not_first_group': 0,
              'non_increasing_group': 0, 'multi_group': 0}
     for k in range(n_cases):
@@ -254,6 +255,7 @@ def run(ctx):
                         exprs.append('match a_unfuse %s %s %d%%nat with Some c => aarray_eqb %s c %s | None => false end' % (
                             A, gen.garray(z, sym, ring), position + g, A, gen.garray(z1, sym, ring)))
                         meta.append(('unfuse', sym, k, str(groups)))
+                        unfuse_cases.append((sym, z, position + g))
                     z = z1
             grouped = {ax for ga in groups for ax in ga}
             perm = [ax for ax in range(position) if ax not in grouped] + [a for ga in groups for a in ga] + \
@@ -477,6 +479,24 @@ def run(ctx):
             ctx.violation('tie of C05 (Gen/FuseGen.v vs calc_fuse_block_info / _fuse_blocks_via_insert) no longer checks',
                           {'broken': fg}, found_input=False)
     # ---- END fusegen block
+
+    # ---- BEGIN unfusegen block (harness/tie_unfusegen.py, own shard and imports): the GENERATED AbelianArray.unfuse of
+    #      Gen/UnfuseGen.v (tr/gen_unfuse.py, Props/C05j.v) vs `y.unfuse(axis)` / `y.unfuse_all()` (whole record, block order included) on
+    #      the fused arrays produced above
+    try:
+        import tie_unfusegen
+        ug = tie_unfusegen.tie(ctx, sr, unfuse_cases)
+    except Exception as e:
+        ug = ['tie of Gen/UnfuseGen.v could not be evaluated: %s: %s' % (type(e).__name__, e)]
+    st = ctx.extra.get('tie_unfusegen', {})
+    ctx.extra['tie']['unfusegen_cases'] = st.get('unfuse_cases', 0) + st.get('inplace_cases', 0)
+    ctx.extra['tie']['unfusegen_unfuse_all_cases'] = st.get('unfuse_all_cases', 0)
+    ctx.extra['tie']['unfusegen_refused_cases'] = st.get('refused_cases', 0)
+    if ug:
+        ctx.broken += ug
+        if not ctx.violations:
+            ctx.violation('tie of C05 (Gen/UnfuseGen.v vs AbelianArray.unfuse) no longer checks', {'broken': ug}, found_input=False)
+    # ---- END unfusegen block
 
 # ------------------------------------------------------------------ replay
 def _fuse_all_ways(x, groups):
